@@ -347,6 +347,10 @@ func (e *SpecEnv) call(n *ECall) SV {
 			return term(v.Loc.Cell, SInt)
 		}
 		e.fail("cellid of %s", v.String())
+	case "kindAt":
+		return term(fmt.Sprintf("(select (Kind %s) %s)", e.H, e.t(n.Args[0])), SInt)
+	case "allocated":
+		return term(fmt.Sprintf("(and (< 0 %s) (< %s (next %s)))", e.t(n.Args[0]), e.t(n.Args[0]), e.H), SBool)
 	case "unchanged":
 		// unchanged(): the whole heap equals the old heap
 		return term(fmt.Sprintf("(= %s %s)", e.H, e.H0), SBool)
